@@ -18,6 +18,8 @@
  *                   process that touches 63 / 64 / 65 distinct TZIDs
  * --opt mode=byhour case = (zone, year) with offset 0 on January 1st: FREQ=DAILY;BYHOUR=h1,h2 events
  *                   (all pairs of 0..6 and six later ones) through the whole year (y0= y1= ystep=)
+ * --opt mode=transient case = (zone B, zone A in use before or none, first operation): B is used for the first
+ *                   time while open(2) answers EMFILE, then again with descriptors available
  * --opt tier=quick|thorough   zone list (quick: the ~45 zones named in the oracle)
  * --opt guard_ms=N  CPU budget of one library call before it counts as a hang
  *
@@ -1177,6 +1179,155 @@ enum_cache(void)
 	}
 }
 
+/* =========================================================== transient */
+/* A zone whose file cannot be opened at one moment (the process is out of file descriptors) must convert
+ * correctly as soon as it can be opened again: sequence (1) zone A in use (or no zone yet), (2) RLIMIT_NOFILE
+ * lowered to 0 so that every open(2) answers EMFILE, (3) ONE use of zone B -- result not judged --, (4) limit
+ * restored, (5) zone B used 9 times (3 instants x loc / utc / offs): every result must be zoneinfo's; then A
+ * again.  path api: library calls; path ical: steps 3 and 5 are one-event calendars read through the parser. */
+static int tr_a, tr_b, tr_path, tr_op;
+
+static void
+tr_shortage(int on)
+{
+	static struct rlimit keep;
+	if (on) {
+		struct rlimit none;
+		if (getrlimit(RLIMIT_NOFILE, &keep) < 0) {
+			oracle_fail("getrlimit", NULL);
+		}
+		none = keep;
+		none.rlim_cur = 0;
+		if (setrlimit(RLIMIT_NOFILE, &none) < 0) {
+			oracle_fail("setrlimit", NULL);
+		}
+	} else if (setrlimit(RLIMIT_NOFILE, &keep) < 0) {
+		oracle_fail("setrlimit back", NULL);
+	}
+}
+
+/* one parsed event DTSTART;TZID=zone:<local of cu[wi]> RRULE:FREQ=DAILY;COUNT=2; 0 ok, 1 wrong, -1 no task / no answer */
+static int
+tr_event(const struct cz_s *c, int wi, char *why, size_t wz)
+{
+	char text[1024], lines[400], uid[40], b1[24], b2[24], b3[24];
+	struct ev_s ev = {0};
+	long l = cu[wi] + c->off[wi];
+
+	snprintf(lines, sizeof(lines), "DTSTART;TZID=%s:%s\nRRULE:FREQ=DAILY;COUNT=2\n", c->name, tstr(b1, l));
+	snprintf(uid, sizeof(uid), "c07-tr%d@verif", wi);
+	ical_wrap(text, sizeof(text), uid, lines);
+	ev.text = text;
+	if (guarded(c_parse, &ev) || ev.t == NULL || ev.t->strm == NULL) {
+		snprintf(why, wz, "DTSTART;TZID=%s:%s RRULE:FREQ=DAILY;COUNT=2: no task", c->name, b1);
+		return -1;
+	}
+	ev.s = ev.t->strm;
+	if (guarded(c_pop, &ev)) {
+		snprintf(why, wz, "DTSTART;TZID=%s:%s RRULE:FREQ=DAILY;COUNT=2: pop does not return", c->name, b1);
+		return -1;
+	}
+	if (inst_epoch(ev.e.from) != cu[wi]) {
+		snprintf(why, wz, "DTSTART;TZID=%s:%s RRULE:FREQ=DAILY;COUNT=2 occurs at %sZ, zoneinfo says %sZ", c->name, b1,
+			 inst_str(b2, sizeof(b2), ev.e.from), tstr(b3, cu[wi]));
+		free_echs_task(ev.t);
+		return 1;
+	}
+	free_echs_task(ev.t);
+	return 0;
+}
+
+static void
+transient_case(void *unused)
+{
+	char why[400], sig[VD_SIGLEN];
+	const struct cz_s *A = tr_a >= 0 ? cz + tr_a : NULL, *B = cz + tr_b;
+	echs_tzob_t za = 0, zb;
+	int nbad = 0;
+
+	(void)unused;
+	/* interned in the order of first use, as the parser does */
+	if (A != NULL) {
+		za = echs_tzob(A->name, strlen(A->name));
+		if (cz_access(za, A, 0, why, sizeof(why))) {
+			snprintf(sig, sizeof(sig), "transient-open/%s/before-the-shortage", tr_path ? "ical" : "api");
+			vd_viol(sig, "zone A before anything happened: %s", why);
+			return;
+		}
+	}
+	zb = echs_tzob(B->name, strlen(B->name));
+	tr_shortage(1);
+	if (tr_path == 0) {
+		(void)cz_access(zb, B, tr_op, why, sizeof(why));
+		vd_sh->evals--;	/* not compared */
+	} else {
+		(void)tr_event(B, 0, why, sizeof(why));
+	}
+	tr_shortage(0);
+	/* the shortage is over: everything is judged again */
+	for (int a = 0; a < (tr_path ? 3 : 9); a++) {
+		int r;
+		vd_sh->evals += tr_path;	/* cz_access counts itself */
+		r = tr_path ? tr_event(B, a, why, sizeof(why)) : cz_access(zb, B, a, why, sizeof(why));
+		if (r && !nbad++) {
+			snprintf(sig, sizeof(sig), "transient-open/%s/%s/zone-that-failed-to-open", tr_path ? "ical" : "api", A ? "after-another-zone" : "first-zone");
+			vd_viol(sig, "zone %s was first used while open(2) answered EMFILE (RLIMIT_NOFILE 0, result not judged); with the limit restored, use #%d: %s",
+				B->name, a + 1, why);
+		}
+	}
+	if (A != NULL) {
+		if (cz_access(za, A, 3, why, sizeof(why))) {
+			snprintf(sig, sizeof(sig), "transient-open/%s/after-another-zone/zone-in-use-before", tr_path ? "ical" : "api");
+			vd_viol(sig, "zone %s was in use before zone %s failed to open once; afterwards: %s", A->name, B->name, why);
+		}
+	}
+}
+
+static void
+enum_transient(void)
+{
+	ncz = 0;
+	for (size_t i = 0; i < sizeof(cz_cand) / sizeof(*cz_cand); i++) {
+		struct cz_s c;
+		char path[400];
+		snprintf(path, sizeof(path), "%s/%s", TZDIR, cz_cand[i]);
+		if (access(path, R_OK) || !cz_fetch(&c, cz_cand[i])) {
+			continue;
+		}
+		/* off UTC and unambiguous at the three instants, so that "stays on UTC" shows in every operation */
+		if (!c.off[0] || !c.off[1] || !c.off[2] || c.cls[0] != 'o' || c.cls[1] != 'o' || c.cls[2] != 'o') {
+			continue;
+		}
+		cz[ncz++] = c;
+	}
+	if (ncz < 2) {
+		oracle_fail("fewer than 2 installed zones off UTC", NULL);
+	}
+	for (tr_b = 0; tr_b < ncz; tr_b++) {
+		for (int wa = 0; wa < 2; wa++) {
+			for (int v = 0; v < 4; v++) {
+				if (!c07_next()) {
+					continue;
+				}
+				tr_a = wa ? (tr_b + 1) % ncz : -1;
+				tr_path = v == 3;
+				tr_op = v % 3;
+				vd_shape("transient/%s", tr_path ? "ical" : "api");
+				vd_desc("%s%s; RLIMIT_NOFILE 0 around the first use of zone %s (%s); limit restored; zone %s used again%s",
+					wa ? "zone in use: " : "no zone in use", wa ? cz[tr_a].name : "", cz[tr_b].name,
+					tr_path ? "a parsed event" : tr_op == 0 ? "echs_instant_loc" : tr_op == 1 ? "echs_instant_utc" : "echs_tzob_offs",
+					cz[tr_b].name, wa ? ", then the first zone" : "");
+				vd_nontrivial();
+				if (tr_b == 5 && wa) {
+					vd_sample("%s", vd_sh->desc);
+				}
+				vd_count("transient_cases", 1);
+				run_forked(transient_case, NULL);
+			}
+		}
+	}
+}
+
 /* ============================================================== byhour */
 /* Several occurrences per local day: DTSTART;TZID=<zone>:<year>0101T<h1>0000 RRULE:FREQ=DAILY;BYHOUR=h1,h2
  * through one whole year.  Only (zone, year) whose offset at DTSTART is 0 are taken: there BYHOUR=h
@@ -1459,6 +1610,8 @@ enumerate(void)
 		enum_cache();
 	} else if (!strcmp(mode, "byhour")) {
 		enum_byhour();
+	} else if (!strcmp(mode, "transient")) {
+		enum_transient();
 	} else {
 		fprintf(stderr, "c07_tz: unknown mode %s\n", mode);
 		_exit(2);
